@@ -110,26 +110,16 @@ fn probe_lane(m: &mut Mon, r: &mut Rng) {
     m.sample("probe", 1, || json!({"ends": ends.iter().take(10).collect::<Vec<_>>(), "knot": [k.x, k.y]}));
 }
 
-macro_rules! real_lane {
-    ($m:expr, $sink:expr, $r:expr, $t:ty, $kind:expr, $deg:expr) => {{
+macro_rules! emit_lane {
+    ($m:expr, $sink:expr, $r:expr, $t:ty, $kind:expr, $deg:expr, $pw:expr, $k:expr, $origin:expr) => {{
         let m: &mut Mon = $m;
         let r: &mut Rng = $r;
         let log = $kind == "log";
-        let n = match r.below(10) { 0 => 1, 1..=7 => r.usize(2, 6), 8 => r.usize(7, 12), _ => r.usize(13, 40) };
-        let class = if log { r.pick(&[EndsClass::Positive, EndsClass::Bench]) } else { r.pick(&[EndsClass::Strict, EndsClass::Dups, EndsClass::IntGrid, EndsClass::Bench, EndsClass::UlpWide]) };
-        let mut ends: Vec<f64> = gen_ends(r, n, class).into_iter().map(|e| if log { e.clamp(1e-3, 1e3) } else { e.clamp(-1e3, 1e3) }).collect();
-        if log && r.chance(0.2) && ends.len() > 1 {
-            let i = r.usize(1, ends.len() - 1);
-            ends[i] = ends[i - 1]; // duplicate breakpoint
-        }
-        ends.sort_by(|a, b| a.partial_cmp(b).unwrap());
-        let coeffs: Vec<Vec<f64>> = (0..ends.len()).map(|_| (0..<$t as Nums>::LEN).map(|_| match r.below(4) { 0 => r.small_int(5), 1 => 0.0, _ => r.mixed(2.0) }).collect()).collect();
-        let pw: Piecewise<$t> = pw_from(&ends, &coeffs);
-        let inside = r.chance(0.75);
-        let kx = if inside {
-            if log { ends[0] * r.uniform(0.3, 1.0) } else { ends[0] - r.uniform(0.0, 3.0) }
-        } else if log { r.uniform(0.5, 3.0) * ends[ends.len() - 1] } else { ends[ends.len() - 1] + r.uniform(-1.0, 2.0) };
-        let k = Knot { x: kx, y: match r.below(3) { 0 => 0.0, 1 => 2.0, _ => r.mixed(2.0) } };
+        let pw: Piecewise<$t> = $pw;
+        let k: Knot = $k;
+        let ends: Vec<f64> = pw_ends(&pw);
+        let coeffs: Vec<Vec<f64>> = pw.segments.iter().map(|s| s.poly.nums()).collect();
+        m.count(&format!("origin:{}", $origin));
         m.eval();
         m.count(&format!("real:{}:{}", $kind, $deg));
         if ends.len() == 1 { m.count("single_piece"); }
@@ -168,6 +158,30 @@ macro_rules! real_lane {
     }};
 }
 
+macro_rules! real_lane {
+    ($m:expr, $sink:expr, $r:expr, $t:ty, $kind:expr, $deg:expr) => {{
+        let m: &mut Mon = $m;
+        let r: &mut Rng = $r;
+        let log = $kind == "log";
+        let n = match r.below(10) { 0 => 1, 1..=7 => r.usize(2, 6), 8 => r.usize(7, 12), _ => r.usize(13, 40) };
+        let class = if log { r.pick(&[EndsClass::Positive, EndsClass::Bench]) } else { r.pick(&[EndsClass::Strict, EndsClass::Dups, EndsClass::IntGrid, EndsClass::Bench, EndsClass::UlpWide]) };
+        let mut ends: Vec<f64> = gen_ends(r, n, class).into_iter().map(|e| if log { e.clamp(1e-3, 1e3) } else { e.clamp(-1e3, 1e3) }).collect();
+        if log && r.chance(0.2) && ends.len() > 1 {
+            let i = r.usize(1, ends.len() - 1);
+            ends[i] = ends[i - 1]; // duplicate breakpoint
+        }
+        ends.sort_by(|a, b| a.partial_cmp(b).unwrap());
+        let coeffs: Vec<Vec<f64>> = (0..ends.len()).map(|_| (0..<$t as Nums>::LEN).map(|_| match r.below(4) { 0 => r.small_int(5), 1 => 0.0, _ => r.mixed(2.0) }).collect()).collect();
+        let pw: Piecewise<$t> = pw_from(&ends, &coeffs);
+        let inside = r.chance(0.75);
+        let kx = if inside {
+            if log { ends[0] * r.uniform(0.3, 1.0) } else { ends[0] - r.uniform(0.0, 3.0) }
+        } else if log { r.uniform(0.5, 3.0) * ends[ends.len() - 1] } else { ends[ends.len() - 1] + r.uniform(-1.0, 2.0) };
+        let k = Knot { x: kx, y: match r.below(3) { 0 => 0.0, 1 => 2.0, _ => r.mixed(2.0) } };
+        emit_lane!(m, $sink, r, $t, $kind, $deg, pw, k, "generated");
+    }};
+}
+
 fn canaries11(m: &mut Mon, sink: &mut Sink) {
     let ends = [1.0, 2.0, 3.0];
     let k = Knot { x: 0.0, y: 1.0 };
@@ -200,7 +214,60 @@ pub const FLOORS: &[&str] = &[
     "probe_functions", "probe_duplicate_breakpoints", "iterator_variants_compared", "single_piece", "duplicate_breakpoints",
     "knot_inside_first_piece", "knot_outside_first_piece", "real:poly:0", "real:poly:7", "real:log:0", "real:log:4", "real:log:8",
     "continuity_checked", "global_integral_checked", "antiderivative_checked",
+    "origin:pipeline_spline", "origin:pipeline_linear", "origin:pipeline_spline_derivative",
 ];
+
+/// Realistic pipelines: the functions integrated are the ones the library itself builds from knots
+/// (constrained_spline -> Piecewise<Poly3>, linear -> Piecewise<Poly1>), optionally scaled / translated /
+/// differentiated first, as a downstream user composes them.
+fn pipeline_lane(m: &mut Mon, sink: &mut Sink, r: &mut Rng) {
+    let nk = r.usize(3, 12);
+    let mut x = r.uniform(-5.0, 5.0);
+    let xs: Vec<f64> = (0..nk)
+        .map(|_| {
+            let v = x;
+            x += r.uniform(0.2, 2.0);
+            v
+        })
+        .collect();
+    let ys: Vec<f64> = (0..nk).map(|i| match r.below(3) { 0 => (i as f64 * 0.7).sin(), 1 => r.small_int(4), _ => r.uniform(-2.0, 2.0) }).collect();
+    let knots: Vec<Knot> = xs.iter().zip(ys.iter()).map(|(x, y)| Knot { x: *x, y: *y }).collect();
+    let k = Knot { x: xs[0] + r.uniform(-1.0, 0.9) * (xs[1] - xs[0]), y: r.mixed(1.0) };
+    let s = match r.below(3) { 0 => 1.0, 1 => -1.0, _ => r.uniform(-3.0, 3.0) };
+    let c = r.uniform(-2.0, 2.0);
+    match r.below(3) {
+        0 => {
+            let built = guard(|| {
+                let mut p = constrained_spline(&knots) * s;
+                p.translate(c);
+                p
+            });
+            match built {
+                Err(pn) => m.panic("pipeline panic (spline * s, translate)", &pn, || json!({"x": hxs(&xs), "y": hxs(&ys)})),
+                Ok(pw) => emit_lane!(m, sink, r, Poly3, "poly", 3, pw, k, "pipeline_spline"),
+            }
+        }
+        1 => {
+            let built = guard(|| {
+                let mut p = linear(&knots);
+                p *= s;
+                p.translate(c);
+                p
+            });
+            match built {
+                Err(pn) => m.panic("pipeline panic (linear *= s, translate)", &pn, || json!({"x": hxs(&xs), "y": hxs(&ys)})),
+                Ok(pw) => emit_lane!(m, sink, r, Poly1, "poly", 1, pw, k, "pipeline_linear"),
+            }
+        }
+        _ => {
+            let built = guard(|| -(constrained_spline(&knots).derivative()));
+            match built {
+                Err(pn) => m.panic("pipeline panic (-(spline.derivative()))", &pn, || json!({"x": hxs(&xs), "y": hxs(&ys)})),
+                Ok(pw) => emit_lane!(m, sink, r, Poly2, "poly", 2, pw, k, "pipeline_spline_derivative"),
+            }
+        }
+    }
+}
 
 pub fn drive(a: &Args, m: &mut Mon, sink: &mut Sink) {
     m.floors(FLOORS);
@@ -210,6 +277,9 @@ pub fn drive(a: &Args, m: &mut Mon, sink: &mut Sink) {
     for _ in 0..n {
         for _ in 0..4 {
             probe_lane(m, &mut r);
+        }
+        for _ in 0..3 {
+            pipeline_lane(m, sink, &mut r);
         }
         real_lane!(m, sink, &mut r, Poly0, "poly", 0);
         real_lane!(m, sink, &mut r, Poly1, "poly", 1);
